@@ -707,7 +707,7 @@ def run_crawl_case(case, part):
         if case['windows_names']:
             argv += ['--restrict-file-names', 'windows']
         if case['warc']:
-            argv += ['--warc-file', os.path.join(tmp, 'w')]
+            argv += ['--warc-file', os.path.join(tmp, 'w'), '--warc-tempdir', tmp]
         res = crawl.run_app(argv, {'a.test': addrs[0]})
         rows = crawl.read_table(db) if os.path.exists(db) else []
         log = srv.log.snapshot()
